@@ -138,7 +138,8 @@ Theorem C17_binomial_unsigned_refuted :
 Proof. exact C17_binomial_unsigned_refuted_lemma. Qed.
 Print Assumptions C17_binomial_unsigned_refuted.
 
-(* ---- binomial AFTER fixes/C17-1.patch (gcd-reduced incremental product, `k > n-k`): the property's statement at full strength:
+(* ---- binomial AFTER fixes/C17-1.patch (incremental product reduced by gcd(bin,i), the gcd computed by the literal Euclid loop
+        c17_euclid_loop; `k > n-k`): the property's statement at full strength:
         the exact value whenever C(n,k) is representable in T (any signedness / width); n is a value of T ---- *)
 Theorem C17_binomial_exact :
   forall (t : c17_ity) (n k : Z),
@@ -147,6 +148,16 @@ Theorem C17_binomial_exact :
   c17_binomial_fix t n k = C17_Val (c17_spec_binomial n k).
 Proof. exact C17_binomial_exact_lemma. Qed.
 Print Assumptions C17_binomial_exact.
+
+(* the literal Euclid loop inside the fixed binomial: equals Z.gcd for non-negative arguments of the type;
+   fuel bound: any fuel > r (the model uses r + 1), so C17_OutOfFuel never occurs *)
+Theorem C17_euclid_gcd :
+  forall (t : c17_ity) (fuel : nat) (g r : Z),
+  c17_inrange t 0 = true -> c17_inrange t g = true -> c17_inrange t r = true ->
+  0 <= g -> 0 <= r -> (Z.to_nat r < fuel)%nat ->
+  c17_euclid_loop fuel t g r = C17_Val (Z.gcd g r).
+Proof. exact C17_euclid_gcd_lemma. Qed.
+Print Assumptions C17_euclid_gcd.
 
 Theorem C17_binomial_exact_outside :
   forall (t : c17_ity) (n k : Z), k < 0 \/ n < k -> c17_binomial_fix t n k = C17_Val 0.
